@@ -116,6 +116,7 @@ Section Balance.
       - inversion H; reflexivity.
       - inversion H; reflexivity.
       - inversion H; reflexivity.
+      - inversion H; reflexivity.
     Qed.
 
     Lemma seq_bal : forall cs st st', q_seq mech ordered klt behav pbehav rec st cs = Some st' -> ecount st' = ecount st.
@@ -147,6 +148,27 @@ Section Balance.
   Proof.
     unfold q_step, GenQ.empty_queue. intros H. inversion H; subst. simpl. split.
     - intros X. inversion X as [Y]. apply andb_true_iff in Y. destruct Y as [Y1 Y2].
+      split; [destruct (qlist st); [reflexivity|discriminate]|]. apply Z.eqb_eq in Y2. lia.
+    - intros [A B]. rewrite A, B. reflexivity.
+  Qed.
+
+  (* the second observer of C11: waitFor with a zero time-out (no DisableQueueNotify in this domain) answers what its
+     predicate doCanProcess says; with an event in dispatch it does not time out, and it times out exactly when nothing is
+     pending and nothing is in dispatch *)
+  Theorem waitfor0_true_when_busy rec st :
+    1 <= ecount st -> q_step mech ordered klt behav pbehav rec st QWaitFor0 = Some (qlog st (QRet true)).
+  Proof.
+    intros H. unfold q_step, GenQ.can_process, GenQ.empty_queue, GenQ.can_notify.
+    assert (E : (Z.of_nat (ecount st) =? 0)%Z = false) by (apply Z.eqb_neq; lia).
+    rewrite E. rewrite andb_false_r. reflexivity.
+  Qed.
+
+  Theorem waitfor0_false_iff rec st st' :
+    q_step mech ordered klt behav pbehav rec st QWaitFor0 = Some st' ->
+    (qtrace st' = QRet false :: qtrace st <-> qlist st = [] /\ ecount st = 0).
+  Proof.
+    unfold q_step, GenQ.can_process, GenQ.empty_queue, GenQ.can_notify. intros H. inversion H; subst. simpl. split.
+    - intros X. inversion X as [Y]. rewrite andb_true_r in Y. apply negb_false_iff in Y. apply andb_true_iff in Y. destruct Y as [Y1 Y2].
       split; [destruct (qlist st); [reflexivity|discriminate]|]. apply Z.eqb_eq in Y2. lia.
     - intros [A B]. rewrite A, B. reflexivity.
   Qed.
